@@ -98,7 +98,7 @@ NAME_POOL = [
     (b'new\nline', b'cr\rhere'), (b'100%', b'%41'), (b'plus+', b'eq=x'), (b'[br', b'st*r'),
     (b'q?', b'#hash'), (b'caf\xc3\xa9', b'\xe6\x97\xa5\xe6\x9c\xac'), (b'x.trashinfo', b'y.trashinfo.trashinfo'),
     (b'Foo', b'foo'), (b'a_1', b'a'), (b'tab\there', b"quote'\""), (b'L' * 200, b'M' * 120),
-    (b'.hidden', b'..dots'), (b'tilde~', b'back\\slash'), (b'notes\n', b'x\n\n'), (b'.env', b'.config.d'),
+    (b'.hidden', b'..dots'), (b'tilde~', b'back\\slash'), (b'notes\n', b'x\n\n'), (b'.env', b'.config.d'), (b'...', b'....'),
 ]
 NAME_POOL_NONUTF8 = [(b'bad\xff', b'ok'), (b'\xfe\xfd', b'\xc3')]
 
@@ -617,7 +617,7 @@ class World(object):
     def write_junk(self, tp, j):
         rnd = random.Random('junk|%s|%s' % (self.conc.variant_seed, j['id']))
         if j['kind'] == 'nopath':
-            s = b'junk-%d' % j['id']
+            s = b'junk-%d' % j['id'] if rnd.random() < 0.5 else b'junk-%d 100%% %%s %%(x)d' % j['id']
             v = rnd.random()
             if v < 0.2:
                 os.mkdir(tp + b'/info/' + s + b'.trashinfo')      # an info entry that cannot be read as a file
